@@ -565,8 +565,57 @@ class Run:
             out.append((s, ast.YieldFrom(value=v), None))
         return out
 
+    def spread_displays(self, node, st):
+        """f(*t, **d) where t / d are bound (by inlining) to a tuple / dict
+        display with constant keys: the explicit argument list"""
+        if not any(isinstance(x, ast.Starred) for x in node.args) and \
+                not any(k.arg is None for k in node.keywords):
+            return node
+        args, kws, changed = [], [], False
+        for x in node.args:
+            if isinstance(x, ast.Starred) and isinstance(x.value, ast.Name):
+                v = st.env.get(x.value.id)
+                if isinstance(v, (ast.Tuple, ast.List)) and not any(
+                        isinstance(e, ast.Starred) for e in v.elts):
+                    args += list(v.elts)
+                    changed = True
+                    continue
+            args.append(x)
+        for k in node.keywords:
+            if k.arg is None and isinstance(k.value, ast.Name):
+                v = st.env.get(k.value.id)
+                if isinstance(v, ast.Dict) and all(
+                        isinstance(q, ast.Constant) and
+                        isinstance(q.value, str) for q in v.keys):
+                    kws += [ast.keyword(arg=q.value, value=val)
+                            for q, val in zip(v.keys, v.values)]
+                    changed = True
+                    continue
+            kws.append(k)
+        if not changed:
+            return node
+        n2 = ast.Call(func=node.func, args=args, keywords=kws)
+        ast.copy_location(n2, node)
+        ast.fix_missing_locations(n2)
+        return n2
+
     def e_Call(self, node, st, maybe):
         out = []
+        node = self.spread_displays(node, st)
+        # getattr(obj, '<constant name>')(...) is the method call obj.name(...)
+        f = node.func
+        if isinstance(f, ast.Call) and isinstance(f.func, ast.Name) and \
+                f.func.id == 'getattr' and len(f.args) == 2 and \
+                not f.keywords:
+            nm = self.subst(f.args[1], st)
+            if isinstance(nm, ast.Constant) and isinstance(nm.value, str) \
+                    and nm.value.isidentifier():
+                node2 = ast.Call(func=ast.Attribute(
+                    value=f.args[0], attr=nm.value, ctx=ast.Load()),
+                    args=node.args, keywords=node.keywords)
+                ast.copy_location(node2, node)
+                ast.fix_missing_locations(node2)
+                return self.e_Call(node2, st, maybe)
         # callee expression first (receiver), then args, then keywords
         for s, fv, sig in self.eval(node.func, st, maybe):
             if sig is not None:
@@ -715,19 +764,33 @@ class Run:
             env = {(a.posonlyargs + a.args)[0].arg: self_val}
         else:
             env = {}
-        if a.vararg or a.kwarg or any(isinstance(x, ast.Starred)
-                                      for x in call.args) or \
+        if any(isinstance(x, ast.Starred) for x in call.args) or \
                 any(k.arg is None for k in call.keywords):
             return None
-        if len(call.args) > len(params):
+        if len(call.args) > len(params) and not a.vararg:
             return None
         for p_, v in zip(params, call.args):
             env[p_] = v
+        if a.vararg:
+            # surplus positional arguments: a tuple display
+            env[a.vararg.arg] = ast.Tuple(
+                elts=list(call.args[len(params):]), ctx=ast.Load())
         kwonly = [x.arg for x in a.kwonlyargs]
+        extra_kw = []
         for k in call.keywords:
-            if k.arg not in params + kwonly or k.arg in env:
+            if k.arg in env:
                 return None
+            if k.arg not in params + kwonly:
+                if not a.kwarg:
+                    return None
+                extra_kw.append(k)
+                continue
             env[k.arg] = k.value
+        if a.kwarg:
+            # surplus keyword arguments: a dict display with constant keys
+            env[a.kwarg.arg] = ast.Dict(
+                keys=[ast.Constant(k.arg) for k in extra_kw],
+                values=[k.value for k in extra_kw])
         nd = len(a.defaults)
         for p_, d in zip(params[len(params) - nd:], a.defaults):
             env.setdefault(p_, copy.deepcopy(d))
@@ -1014,7 +1077,35 @@ class Run:
                         names.add(nm)
         return names or None
 
+    def desugar_listcomp(self, s):
+        """`x = [elt for t in it if c ...]` (one generator, plain name
+        target) -> x = []; for t in it: if c: x.append(elt)"""
+        if not (isinstance(s, ast.Assign) and len(s.targets) == 1 and
+                isinstance(s.targets[0], ast.Name) and
+                isinstance(s.value, ast.ListComp) and
+                len(s.value.generators) == 1 and
+                not s.value.generators[0].is_async):
+            return None
+        g = s.value.generators[0]
+        x = s.targets[0].id
+        body = [ast.Expr(value=ast.Call(
+            func=ast.Attribute(value=ast.Name(id=x, ctx=ast.Load()),
+                               attr='append', ctx=ast.Load()),
+            args=[s.value.elt], keywords=[]))]
+        for c in reversed(g.ifs):
+            body = [ast.If(test=c, body=body, orelse=[])]
+        out = [ast.Assign(targets=[ast.Name(id=x, ctx=ast.Store())],
+                          value=ast.List(elts=[], ctx=ast.Load())),
+               ast.For(target=g.target, iter=g.iter, body=body, orelse=[])]
+        for o in out:
+            ast.copy_location(o, s)
+            ast.fix_missing_locations(o)
+        return out
+
     def stmt(self, s, st):
+        ds = self.desugar_listcomp(s)
+        if ds is not None:
+            return self.block(ds, st)
         m = getattr(self, 's_' + type(s).__name__, None)
         if m is None:
             raise AnalysisError('unsupported statement %s at line %d'
@@ -1076,6 +1167,12 @@ class Run:
         """May this value be propagated textually?  Only names, constants
         and operators over them: anything that reads state (attribute,
         subscript) or runs code is captured once in a value symbol."""
+        # an alias of an attribute of self that is bound in constructors
+        # only (`tbl = self._table`) names the same object for the whole
+        # function: propagate it textually
+        if isinstance(v, ast.Attribute) and isinstance(v.value, ast.Name) \
+                and v.value.id == 'self' and self.stable(v.attr):
+            return True
         for n in ast.walk(v):
             if isinstance(n, (ast.Call, ast.Await, ast.Yield, ast.YieldFrom,
                               ast.Attribute, ast.Subscript, ast.List,
@@ -1235,6 +1332,85 @@ class Run:
                 continue
             out += self.block(s.body if truth else s.orelse, s2)
         return out
+
+    def s_Match(self, s, st):
+        """`match` over value / singleton / or / capture / wildcard patterns
+        (with guards) is an if/elif chain on the subject; sequence, mapping
+        and class patterns are outside the enumerator."""
+        subj = s.subject
+        pre = []
+        if not isinstance(subj, (ast.Name, ast.Constant)) and not (
+                isinstance(subj, ast.Attribute) and
+                self.simple_value(subj.value)):
+            self.counter += 1
+            nm = '_match%d' % self.counter
+            pre = [ast.copy_location(ast.Assign(
+                targets=[ast.Name(id=nm, ctx=ast.Store())], value=subj),
+                s)]
+            subj = ast.Name(id=nm, ctx=ast.Load())
+
+        def cond(pat):
+            """-> (test ast or True, [bindings])"""
+            if isinstance(pat, ast.MatchValue):
+                return ast.Compare(left=subj, ops=[ast.Eq()],
+                                   comparators=[pat.value]), []
+            if isinstance(pat, ast.MatchSingleton):
+                return ast.Compare(left=subj, ops=[ast.Is()],
+                                   comparators=[ast.Constant(pat.value)]), []
+            if isinstance(pat, ast.MatchClass) and not pat.patterns and \
+                    not pat.kwd_patterns:
+                return ast.Call(func=ast.Name(id='isinstance',
+                                              ctx=ast.Load()),
+                                args=[subj, pat.cls], keywords=[]), []
+            if isinstance(pat, ast.MatchOr):
+                parts = [cond(q) for q in pat.patterns]
+                if any(b for _, b in parts):
+                    raise AnalysisError('match: capture inside an or-'
+                                        'pattern at line %d' % s.lineno)
+                if any(t is True for t, _ in parts):
+                    return True, []
+                return ast.BoolOp(op=ast.Or(),
+                                  values=[t for t, _ in parts]), []
+            if isinstance(pat, ast.MatchAs):
+                if pat.pattern is None:
+                    return True, ([pat.name] if pat.name else [])
+                t, b = cond(pat.pattern)
+                return t, b + ([pat.name] if pat.name else [])
+            raise AnalysisError('unsupported match pattern %s at line %d'
+                                % (type(pat).__name__, s.lineno))
+        chain = None
+        tail = None
+        for c in s.cases:
+            t, binds = cond(c.pattern)
+            body = [ast.copy_location(ast.Assign(
+                targets=[ast.Name(id=b, ctx=ast.Store())], value=subj), s)
+                for b in binds] + list(c.body)
+            if c.guard is not None:
+                if binds:
+                    raise AnalysisError('match: guard on a capturing case '
+                                        'at line %d' % s.lineno)
+                t = c.guard if t is True else ast.BoolOp(
+                    op=ast.And(), values=[t, c.guard])
+            if t is True:
+                node = body
+                if tail is None:
+                    chain = node
+                else:
+                    tail.orelse = node
+                tail = None
+                break
+            node = ast.copy_location(ast.If(test=t, body=body, orelse=[]),
+                                     c.pattern)
+            ast.fix_missing_locations(node)
+            if chain is None:
+                chain = [node]
+            else:
+                tail.orelse = [node]
+            tail = node
+        stmts = pre + (chain or [])
+        for x in stmts:
+            ast.fix_missing_locations(x)
+        return self.block(stmts, st)
 
     def _loop_bound(self, s):
         return self.loop_iters.get(s.lineno, self.max_iter)
@@ -1465,6 +1641,15 @@ class Run:
     def s_With(self, s, st):
         out = []
         is_async = isinstance(s, ast.AsyncWith)
+        sup = suppress_types(s)
+        if sup is not None:
+            # `with contextlib.suppress(E): body` == try: body / except E: pass
+            t = ast.Try(body=list(s.body), handlers=[ast.ExceptHandler(
+                type=sup, name=None, body=[ast.Pass()])], orelse=[],
+                finalbody=[])
+            ast.copy_location(t, s)
+            ast.fix_missing_locations(t)
+            return self.s_Try(t, st)
         cur = [(st, [], None)]
         for item in s.items:
             nxt = []
@@ -1499,6 +1684,20 @@ class Run:
         return out
 
     s_AsyncWith = s_With
+
+
+def suppress_types(s):
+    """the exception type expression of `with [contextlib.]suppress(E...)`
+    (single item, not async), else None"""
+    if isinstance(s, ast.With) and len(s.items) == 1 and \
+            s.items[0].optional_vars is None:
+        c = s.items[0].context_expr
+        if isinstance(c, ast.Call) and U(c.func) in (
+                'contextlib.suppress', 'suppress') and c.args and \
+                not c.keywords:
+            return c.args[0] if len(c.args) == 1 else ast.Tuple(
+                elts=list(c.args), ctx=ast.Load())
+    return None
 
 
 def new_helper_resolver(finfo, model):
